@@ -52,6 +52,39 @@ Fixpoint expr_eqb (a b : expr) {struct a} : bool :=
 Definition optZ_eqb (a b : option Z) : bool :=
   match a, b with Some x, Some y => Z.eqb x y | None, None => true | _, _ => false end.
 
+(* plain alias() hands out new column identities; export compiles a clone in which an identity and the alias-new
+   identities of the same column are merged.  The harness reports the clone's identities as the OUTERMOST original
+   one; the model's uids are brought to the same form: every alias map of the tree is applied, inner ones first *)
+Fixpoint alias_maps (a : ast) : list (list (uid * uid)) :=
+  match a with
+  | Source _ _ => []
+  | Alias c (Some m) => alias_maps c ++ [m]
+  | Select c _ | Rename c _ | Mutate c _ | Filter c _ | Arrange c _ | SliceHead c _ _
+  | GroupBy c _ _ | Ungroup c | Summarize c _ | Alias c None | SubqueryMarker c => alias_maps c
+  | Join l r _ _ | Union l r _ => alias_maps l ++ alias_maps r
+  end.
+Definition canon_uid (ms : list (list (uid * uid))) (u : uid) : uid := fold_left (fun x m => remap_uid m x) ms u.
+Fixpoint canon_expr (f : uid -> uid) (e : expr) {struct e} : expr :=
+  match e with
+  | ECol u => ECol (f u)
+  | ELit v => ELit v
+  | ECast e' t => ECast (canon_expr f e') t
+  | ECase cs d =>
+      ECase ((fix go (l : list (expr * expr)) : list (expr * expr) :=
+                match l with [] => [] | (c, v) :: r => (canon_expr f c, canon_expr f v) :: go r end) cs)
+            (match d with Some x => Some (canon_expr f x) | None => None end)
+  | EFn o args hp part arr =>
+      EFn o ((fix go (l : list expr) : list expr := match l with [] => [] | x :: r => canon_expr f x :: go r end) args) hp
+          ((fix go (l : list expr) : list expr := match l with [] => [] | x :: r => canon_expr f x :: go r end) part)
+          ((fix go (l : list (expr * omark)) : list (expr * omark) :=
+              match l with [] => [] | (x, m) :: r => (canon_expr f x, m) :: go r end) arr)
+  end.
+Definition canon_query (f : uid -> uid) (q : query) : query :=
+  {| q_select := map f (q_select q); q_part := map f (q_part q); q_group := map f (q_group q);
+     q_where := map (canon_expr f) (q_where q); q_having := map (canon_expr f) (q_having q);
+     q_order := map (fun o => (canon_expr f (fst o), snd o)) (q_order q);
+     q_limit := q_limit q; q_offset := q_offset q; q_summ := q_summ q |}.
+
 (* codes of the Query fields that differ: 1 select, 2 partition_by, 3 group_by, 4 where, 5 having,
    6 order_by, 7 limit, 8 offset, 9 is_summarized *)
 Definition query_diff (m r : query) : list nat :=
@@ -68,8 +101,8 @@ Definition query_diff (m r : query) : list nat :=
 Definition subset_u (a b : list uid) : bool := forallb (fun x => mem_u x b) a.
 
 (* 10: a selected column's label differs; 11: the scope (Cache.cols) differs as a set *)
-Definition compiled_diff (c : compiled) (rq : query) (rlabels : list (uid * string)) (rscope : list uid) : list nat :=
-  query_diff (c_q c) rq ++
+Definition compiled_diff (f : uid -> uid) (c : compiled) (rq : query) (rlabels : list (uid * string)) (rscope : list uid) : list nat :=
+  query_diff (canon_query f (c_q c)) rq ++
   (if forallb (fun u => String.eqb (label (c_labels c) u) (label rlabels u)) (q_select (c_q c)) then [] else [10%nat]) ++
   (if subset_u (c_scope c) rscope && subset_u rscope (c_scope c) then [] else [11%nat]).
 
@@ -77,22 +110,23 @@ Definition compiled_diff (c : compiled) (rq : query) (rlabels : list (uid * stri
    list is the left operand's select list (possibly pruned to the columns needed later when the operand is
    a subquery) and the right list is the left list's column NAMES looked up among the right operand's
    visible columns *)
-Fixpoint subseq_u (a b : list uid) : bool :=
+Fixpoint subseq_p (a b : list (uid * uid)) : bool :=
   match a, b with
   | [], _ => true
   | _ :: _, [] => false
-  | x :: a', y :: b' => if N.eqb x y then subseq_u a' b' else subseq_u a b'
+  | x :: a', y :: b' => if N.eqb (fst x) (fst y) && N.eqb (snd x) (snd y) then subseq_p a' b' else subseq_p a b'
   end.
-Fixpoint unions_ok (info : list (compiled * compiled)) (rlog : list (list uid)) : bool :=
+(* every (left column, right column) pair that the real union stacks is a pair the model stacks, in order *)
+Fixpoint unions_ok (f : uid -> uid) (info : list (compiled * compiled)) (rlog : list (list uid)) : bool :=
   match info, rlog with
   | [], [] => true
   | (cl, cr) :: info', rl :: rr :: rlog' =>
-      subseq_u rl (q_select (c_q cl))
-      && match map_opt (by_name cr) (map (label (c_labels cl)) rl) with
-         | Some x => list_eqb2 N.eqb x rr
+      Nat.eqb (List.length rl) (List.length rr)
+      && match union_right_select cl cr with
+         | Some rsel => subseq_p (combine rl rr) (combine (map f (q_select (c_q cl))) (map f rsel))
          | None => false
          end
-      && unions_ok info' rlog'
+      && unions_ok f info' rlog'
   | _, _ => false
   end.
 
@@ -102,8 +136,8 @@ Definition l3_check (a : ast) (rq : query) (rlabels : list (uid * string)) (rsco
            (rlog : list (list uid)) : nat * list nat * nat :=
   match compile a with
   | Some c => (1%nat,
-               (compiled_diff c rq rlabels rscope
-                ++ (if unions_ok (union_info a) rlog then [] else [12%nat]))%list,
+               (compiled_diff (canon_uid (alias_maps a)) c rq rlabels rscope
+                ++ (if unions_ok (canon_uid (alias_maps a)) (union_info a) rlog then [] else [12%nat]))%list,
                if flat_ok a then 1%nat else 0%nat)
   | None => (0%nat, [], 0%nat)
   end.
